@@ -13,7 +13,7 @@ T={
  "C03":("differential vs R2 last-participation captures + structural invariants of the analyze tree; seeded random ASTs with shrinking","4 C03",
         "group texts from replace_all ($N with non-digit delimiters) and analyze (Group tree) are compared with the reference's captures on matches whose spans agree with R2, and checked structurally on every match",
         "two listed known findings mask: empty Group for a non-participating group under a quantifier; wrong text for a group inside a loop"),
- "C04":("cross-API metamorphic relations; two bounded-exhaustive scopes + seeded random ASTs in both dialects with shrinking","4 C04",
+ "C04":("cross-API metamorphic relations; two bounded-exhaustive scopes + seeded random ASTs in both dialects with shrinking (+ libFuzzer target with the relations as in-target oracle in thorough)","4 C04",
         "pure relations between the three scanning APIs and is_match on the same input; no reference matcher involved, so it runs inside all known-finding regions too",
         "patterns the engine itself reports as nullable are left to C16"),
  "C05":("crash oracle over generated 4-tuples (valid ASTs, token-level mutants, random metacharacter strings, extreme bounds, precondition shapes) in worker processes with overflow checks on; libFuzzer campaign in the thorough tier","4 C05",
@@ -22,7 +22,7 @@ T={
  "C06":("bounded termination observation under a CPU-time watchdog with single-character-deletion growth test; bounded-exhaustive nested-quantifier scope + seeded random quantifier-heavy patterns (+ libFuzzer in thorough)","4 C06",
         "calls must return and iterators must respect len+1 / 2*len+1 and stay exhausted; a call is judged non-terminating only if it exceeds 0.5 s then 10 s of CPU and every single-character deletion of the minimal such input returns in < 2 ms",
         "liveness is only observed within bounds (inputs <= 8, nesting <= 3); finite exponential backtracking is deliberately not reported"),
- "C08":("differential: same engine with all compile-time shortcuts disabled through the verification hook; two bounded-exhaustive scopes + generators biased to each shortcut","4 C08",
+ "C08":("differential: same engine with all compile-time shortcuts disabled through the verification hook; two bounded-exhaustive scopes + generators biased to each shortcut (+ libFuzzer target with the differential as in-target oracle in thorough)","4 C08",
         "all five APIs must agree value for value between the normal and the unoptimised compilation of the same pattern",
         "needs the cfg(regexml_verif) hook; parse-time quantifier simplifications are on both sides"),
  "C12":("differential vs R1/R2 with the anchor and dot rules; exhaustive inputs over {a,b,LF,CR} for all small anchor/dot ASTs + seeded random","4 C12",
